@@ -552,10 +552,11 @@ class Gen:
             return {"op": "set_comp_phases", "name": n, "conf": sub}
         s = m.comps[n]
         si = self.scale_i()
+        z = lambda x: 0.0 if self.r.chance(0.1) else x  # an explicit 0 is a configured value
         if k == "PLoad":
-            conf = {p: self.eng(-3, -1) * si for p in sub}
+            conf = {p: z(self.eng(-3, -1) * si) for p in sub}
         elif k == "ILoad":
-            conf = {p: self.eng(-3, -2) * si for p in sub}
+            conf = {p: z(self.eng(-3, -2) * si) for p in sub}
         else:
             conf = {p: round(abs(s["p"]["rs"]) * self.r.pick([0.5, 2.0, 10.0]), 3) for p in sub}
         return {"op": "set_comp_phases", "name": n, "conf": conf}
